@@ -172,3 +172,35 @@ Proof.
   intros Hc Hm Hs HG.
   exact (@isomap_k_full Qc QcOps QcField qz nbrs w N G Qc_two_neq0 Hc Hm Hs HG).
 Qed.
+
+(* ---------------- non-vacuity witness for the optimality theorems ---------------- *)
+From TK Require Import Spectral_KyFan Mds_Proof_Optimal.
+Definition exo_B : mat Qc := mof [[qfrac 36 25; qfrac 48 25]; [qfrac 48 25; qfrac 64 25]].
+Definition exo_V : mat Qc := mof [[qfrac 4 5; qfrac 3 5]; [qfrac (-3) 5; qfrac 4 5]].
+Definition exo_lam : vec Qc := vof [qz 0; qz 4].
+Definition exo_Q : mat Qc := mof [[qfrac 3 5]; [qfrac 4 5]].
+Definition exo_s : vec Qc := vof [qz 2].
+Lemma exo_ok :
+  msym 2 exo_B /\
+  meq 2 2 (mmul 2 (mtrans exo_V) exo_V) mI /\
+  meq 2 2 (mmul 2 exo_V (mtrans exo_V)) mI /\
+  meq 2 2 (mmul 2 exo_B exo_V) (mmul 2 exo_V (mdiag exo_lam)) /\
+  Spectral_KyFan.ascending 2 exo_lam /\
+  (forall t, t < 2 -> fle 0%F (exo_lam t)) /\
+  (forall c, c < 1 -> (exo_s c * exo_s c)%F = exo_lam (2 - 1 + c)%nat) /\
+  meq 1 1 (mmul 2 (mtrans exo_Q) exo_Q) mI.
+Proof.
+  split.
+  { intros i j Hi Hj. destruct i as [|[|i]]; destruct j as [|[|j]]; try lia; reflexivity. }
+  split; [apply meq_by_compute; vm_compute; reflexivity|].
+  split; [apply meq_by_compute; vm_compute; reflexivity|].
+  split; [apply meq_by_compute; vm_compute; reflexivity|].
+  split.
+  { intros a b Hab Hb. destruct a as [|[|a]]; destruct b as [|[|b]]; try lia;
+      cbn [fle QcOrdered]; unfold Qcle; vm_compute; discriminate. }
+  split.
+  { intros t Ht. destruct t as [|[|t]]; try lia; cbn [fle QcOrdered]; unfold Qcle; vm_compute; discriminate. }
+  split.
+  { intros c Hc. assert (c = 0) by lia. subst. apply Qc_is_canon. vm_compute. reflexivity. }
+  apply meq_by_compute. vm_compute. reflexivity.
+Qed.
